@@ -31,12 +31,14 @@ GRV_CMD(scale) {
             while (!l.empty() && (l.back() & 0xC0) == 0x80) l.pop_back();
             if (!l.empty() && (unsigned char)l.back() >= 0xC0) l.pop_back();
             const size_t nch = gr_count_unicode_characters(gr_utf8, l.data(), l.data() + l.size(), 0);
+            GRV_WATCHDOG;
             gr_segment *s0 = gr_make_seg(0, face, 0, 0, gr_utf8, l.data(), nch, dir);
             SegP p0 = project(s0, face, 0, true);
             for (auto &pv : (*j)["p2"].a) {
                 const long p2 = long(pv->num());
                 set_case("scale %s line=%ld p2=%ld", font.c_str(), ln, p2);
                 gr_font *gf = gr_make_font(float(p2) / 2.0f, face);
+                GRV_WATCHDOG;
                 gr_segment *s1 = gr_make_seg(gf, face, 0, 0, gr_utf8, l.data(), nch, dir);
                 SegP p1 = project(s1, face, gf, true);
                 ++pairs; ++g_cases;
